@@ -34,6 +34,7 @@ def line_options(starts, quick):
         opts.append(('ldi', s, 2))
         opts.append(('jmp', s, 3))
         opts.append(('m2', s, 4))             # macro of two 12-bit steps, each padded on its own: 4 bytes
+        opts.append(('wstr', s, 4))           # .2byte "AB": two characters, two bytes each
         opts.append(('mbytes', s, 1))         # a muted line (judged only where it does not decide: two unmuted lines still collide or not)
         opts.append(('mbytes', s, 2))
         if 2 <= s <= 8:
@@ -78,6 +79,8 @@ def place(lines):
             body = [('mute',), ('org', s, None), ('data', 1, [m + j for j in range(n)]), ('unmute',)]
         elif kind == 'm2':
             body = [('org', s, None), ('m2', m & 0xFF, (m + 1) & 0xFF)]
+        elif kind == 'wstr':
+            body = [('org', s, None), ('rawbytes', '    .2byte "AB"', [0x41, 0, 0x42, 0])]
         elif kind == 'zorg1':
             body = [('org', s - 2, 'z1'), ('data', 1, [m, m + 1])]
         elif kind == 'zorg2':
@@ -108,7 +111,7 @@ def meta(tier):
                 '--no-binary and one of the four pretty-print formats, with --no-binary alone, or with an image window (-s / -e) that contains none of the lines, judged on acceptance only; plus every program of up to 4 (thorough 5) lines over bytes / fills / a macro / zone switches / includes of a plain file and of a file that switches zone '
                 'without any origin directive or predefined data (collisions through overlapping zones and code growing into a zone only); plus every ordered pair of lines placed in the last 6 addresses of an 8- / 16-bit address space; states = distinct sets of occupied (address, owner) cells',
         'bounds': {'starts': 'pairs 0..6; triples 0..3 (quick) / 0..6 (thorough)',
-                   'kinds': ['.byte x1..3', '.fill 0|1|3', '.zerountil (len 2, len 0)', 'nop', 'ldi', 'jmp', 'm2 (macro of two 12-bit steps)',
+                   'kinds': ['.byte x1..3', '.fill 0|1|3', '.zerountil (len 2, len 0)', 'nop', 'ldi', 'jmp', 'm2 (macro of two 12-bit steps)', '.2byte "AB" (4 bytes)',
                              '.org k "z1" (z1=2..9)', '.org k "z2" (z2=4..12, overlapping z1)', '.org k "z3" (z3=0..2, sharing one address with z1)', '.org 0 "z4" (z4=3..3)', 'line in an included file',
                              'predefined data block'],
                    'orders': 'all permutations (ordered tuples)'},
@@ -142,7 +145,7 @@ def shard(acc, tier, idx, n):
     pair_opts = line_options(range(0, 7), q)
     tri_opts = line_options(range(0, 4) if q else range(0, 7), q)
     if q:
-        tri_opts = [o for o in tri_opts if o[0] in ('bytes', 'fill', 'jmp', 'm2', 'mbytes', 'zorg1', 'zorg3', 'zorg4', 'inc', 'predef') and not (o[0] == 'bytes' and o[2] == 2)]
+        tri_opts = [o for o in tri_opts if o[0] in ('bytes', 'fill', 'jmp', 'm2', 'wstr', 'mbytes', 'zorg1', 'zorg3', 'zorg4', 'inc', 'predef') and not (o[0] == 'bytes' and o[2] == 2)]
     plans = [(pair_opts, 2), (tri_opts, 3)]
     if not q:
         quad = [o for o in line_options(range(0, 4), q) if o[0] in ('bytes', 'fill', 'predef') and o[2] in (0, 2)]
